@@ -7,7 +7,7 @@ from adaptix import ProviderNotFoundError
 from . import matrix
 from .matrix import DEBUGS, MODES, Err, data_for, hint_of, retort_for, run
 from .report import Report
-from .space import dumper_exists, show, to_json, values_of
+from .space import dumper_exists, has_multi_union, show, to_json, values_of
 
 
 class Ctx:
@@ -45,7 +45,11 @@ def load_sweep(types, oracle, report: Report, on_creation_error=None, recipe_key
             if on_creation_error is not None:
                 on_creation_error(ts, failed, report)
             continue
+        multi_union = has_multi_union(ts)
         for datum in data_for(ts):
+            if datum.one_shot and multi_union:
+                report.skip("one-shot iterator for a union with several cases (every case loader consumes the same iterator)")
+                continue
             ctx = Ctx()
             ctx.ts, ctx.datum, ctx.report, ctx.loaders, ctx.recipe_key = ts, datum, report, loaders, recipe_key
             ctx.inputs = {mode: datum.fresh() for mode in MODES}
